@@ -221,3 +221,54 @@ def all_attributes(ck, aa):
         e = skip_copies(rs[0].get("e")) if len(rs) == 1 else None
         ok = e is not None and e.get("k") == "member" and e.get("name") == "QMessageLogContext::" + acc and is_this_field(e.get("base"), LM + "::m_context")
         ck.ob("C13-O2", sitestr(f), ok, "%s() returns m_context.%s" % (acc, acc) if ok else "%s() returns %s" % (acc, describe(e)), key="LogMessage::%s|return" % acc)
+    mode_reaches_formatter(ck)
+
+
+def mode_reaches_formatter(ck):
+    """compact = one line only if the mode the caller asks for is the mode of the formatter that ends up in the pipeline"""
+    F = ck.facts
+    ck.rule("C13-O4", "the requested mode reaches the formatter: JsonFormatter(compact) stores its argument in m_compact, which nothing else writes; "
+                      "SimplePipeline::formatToJson(compact) appends a formatter constructed from its own argument (not a shared instance whose mode was fixed by the first caller)")
+    MC = JF + "::m_compact"
+    ctors = [f for f in F.fn_all(JF + "::JsonFormatter") if f.d.get("kind") == "ctor" and not f.d.get("copyctor") and not f.d.get("movector") and f.params]
+    ck.require(len(ctors) == 1, "JsonFormatter(bool) constructor not found")
+    ct = ctors[0]
+    ck.touch(ct)
+    ws = field_writes(F, MC)
+    init = [w for w in ws if w[0].id == ct.id and w[2] == "ctor-init"]
+    other = [w for w in ws if w not in init]
+    oki = len(init) == 1 and any(isinstance(i.get("e"), dict) and is_ref_to(i["e"], ct.params[0]["decl"]) for i in ct.inits if (i.get("member") or i.get("field") or "").endswith("m_compact"))
+    ck.ob("C13-O4", sitestr(ct), oki, "m_compact is initialised from the constructor argument" if oki else "m_compact is not initialised from the constructor argument", key="JsonFormatter|mode-init")
+    for wf, wn, how in other:
+        ck.ob("C13-O4", sitestr(wf, wn), False, "m_compact is also written in %s (%s)" % (wf.name.split("::")[-1], how), key="JsonFormatter::m_compact|writer|%s" % wf.name.split("::")[-1])
+    ft = F.fn("QtLogger::SimplePipeline::formatToJson", flat=False)
+    ck.touch(ft)
+    pdecl = ft.params[0]["decl"]
+    apps = [n for n in ft.calls() if name_is(n.get("callee"), ("append", "appendFormatter", "setFormatter", "operator<<")) and n.get("args")]
+    ck.require(len(apps) == 1, "formatToJson adds %d handlers" % len(apps))
+    a = skip_copies(deref_local(ft, apps[0]["args"][-1]))
+    while isinstance(a, dict) and a.get("k") in ("cast", "construct") and (a.get("e") or (a.get("args") and len(a["args"]) == 1)) and not name_is(strip_tmpl(a.get("callee") or ""), "QSharedPointer::create"):
+        a = skip_copies(a.get("e") or a["args"][0])
+    if is_call(a, ("QSharedPointer::create", "std::make_shared", "QSharedPointer<QtLogger::JsonFormatter>::create")) or (a.get("k") == "call" and name_is(strip_tmpl(a.get("callee") or ""), "QSharedPointer::create")):
+        ok = bool(a.get("args")) and is_ref_to(deref_local(ft, a["args"][0]), pdecl)
+        ck.ob("C13-O4", sitestr(ft, a), ok, "formatToJson(compact) appends a new JsonFormatter(compact)" if ok else "formatToJson creates the formatter with %s" % [describe(x) for x in a.get("args", [])], key="formatToJson|mode-arg")
+    elif a.get("k") == "new" or (a.get("k") == "construct" and "JsonFormatter" in (a.get("class") or "")):
+        args = a.get("args", [])
+        ok = bool(args) and any(is_ref_to(deref_local(ft, x), pdecl) for x in walk(args[0]))
+        ck.ob("C13-O4", sitestr(ft, a), ok, "formatToJson(compact) appends a new JsonFormatter(compact)" if ok else "formatToJson creates the formatter without its argument", key="formatToJson|mode-arg")
+    elif a.get("k") == "call" and F.fns.get(a.get("fn")) is not None and F.fns[a["fn"]].body is not None:
+        cal = F.fns[a["fn"]]
+        ck.touch(cal)
+        pd = {p_["decl"] for p_ in cal.params}
+        shared = []
+        for d in cal.find(lambda n: n.get("k") == "decl"):
+            for v in d.get("vars", []):
+                if v.get("static") and isinstance(v.get("init"), dict) and any(x.get("k") == "ref" and x.get("decl") in pd for x in walk(v["init"])):
+                    shared.append((d, v))
+        if shared:
+            ck.ob("C13-O4", sitestr(cal, shared[0][0]), False, "%s() keeps one shared formatter in a function-local static initialised from its parameter: the first caller's mode wins, "
+                  "a later formatToJson(true) gets the indented instance (records span several lines)" % cal.name.split("::")[-1], key="formatToJson|shared-instance")
+        else:
+            ck.ob("C13-O4", sitestr(ft, a), None, "formatToJson obtains the formatter from %s(); idiom not recognised" % cal.name.split("::")[-1])
+    else:
+        ck.ob("C13-O4", sitestr(ft, apps[0]), None, "formatToJson appends %s; idiom not recognised" % describe(a)[:80])
